@@ -30,8 +30,11 @@ Fixpoint rmap {A B} (f : A -> res B) (l : list A) : res (list B) :=
   end.
 
 (* fixed_Dnn switches: false = the code as it is in /repo today *)
-Definition fixed_D20 : bool := false.     (* NonTensorStack.to_dict passes an unexpected keyword to tolist *)
-Definition fixed_C16a : bool := false.    (* NonTensorStack.data on nested stacks *)
+(* (all true now: the repairs of fixes/C16/*.diff are in /repo) *)
+Definition fixed_D20 : bool := true.      (* false: NonTensorStack.to_dict passes an unexpected keyword to tolist and raises *)
+Definition fixed_C16a : bool := true.     (* false: NonTensorStack.data on nested stacks answers with the first member's value *)
+Definition fixed_C16d : bool := true.     (* false: torch.cat keeps the first operand's payload / raises for stacks *)
+Definition fixed_C16n : bool := true.     (* false: utils._set_item does not call maybe_to_stack on a stack destination *)
 Definition fixed_D23 : bool := true.      (* lazy[int_tensor] = value: the members are updated in place (fix bc087c4 in /repo);
                                              false = the member objects are replaced by the value's pieces *)
 
@@ -511,8 +514,12 @@ Definition set_item (x : nt) (idx : list item) (v : nt) : res nt :=
       if (p =? q)%Z then Ok x
       else rbind (from_nontensordata x) (fun xs => assign xs idx v)
   | Shared _ _, Stack _ _ => rbind (from_nontensordata x) (fun xs => assign xs idx v)
-  | Stack d _, _ =>
-      rbind (if d =? 0 then Ok x else rbind (unbind 0 x) (fun ms => Ok (Stack 0 ms))) (fun xs => assign xs idx v)
+  | Stack _ _, _ =>
+      rbind (if fixed_C16n then maybe_to_stack x else Ok x) (fun x1 =>
+      rbind (match x1 with
+             | Stack 0 _ | Shared _ _ => Ok x1
+             | Stack _ _ => rbind (unbind 0 x1) (fun ms => Ok (Stack 0 ms))
+             end) (fun xs => assign xs idx v))
   end.
 
 (* ---------------- shape operations on a NonTensorData: only the batch size changes (through its empty tensordict) *)
@@ -567,3 +574,14 @@ Definition cat_shared (l : list nt) (dim : nat) : res nt :=
       else OutOfModel
   | _ => OutOfModel
   end.
+
+(* torch.cat of the non-tensor entries of tensordicts (_torch_func._cat after the repair of C16-d): one NonTensorData when all
+   operands are NonTensorData with one and the same value, else a stack along dim of the operands' slices, side by side *)
+Definition same_shared (l : list nt) : bool :=
+  match l with Shared p _ :: r => all_same_shared p r | _ => false end.
+
+Definition cat_nt (l : list nt) (dim : nat) : res nt :=
+  if fixed_C16d then
+    if same_shared l then cat_shared l dim
+    else rbind (rmap (unbind dim) l) (fun pss => match concat pss with [] => Raised | ps => Ok (Stack dim ps) end)
+  else cat_shared l dim.
